@@ -379,6 +379,56 @@ pub fn gen_very_long(g: &mut Xo, steps: usize) -> VmSc {
     sc
 }
 
+/// Number of cells of the enumerated operand grid (`gen_operand_cell`).
+pub fn operand_cells() -> usize {
+    ALL_INT_OPS.len() * I64_POOL.len() * I64_POOL.len() + ALL_FLOAT_OPS.len() * f64_pool().len() * f64_pool().len()
+}
+
+/// Cell `idx` of the ENUMERATED operand grid: every integer instruction on every ordered pair of boundary literals,
+/// every float instruction on every ordered pair of boundary floats (`[push a, push b, op]`; a unary instruction uses
+/// b). A value band that matters only for one instruction and one pair of operands (-2^31 / -1, 3 037 000 500 squared,
+/// two factors just below 2^32) is met in every invocation instead of by luck.
+pub fn gen_operand_cell(idx: usize) -> VmSc {
+    let idx = idx % operand_cells();
+    let ni = I64_POOL.len();
+    let int_cells = ALL_INT_OPS.len() * ni * ni;
+    let program = if idx < int_cells {
+        let (op, rest) = (idx / (ni * ni), idx % (ni * ni));
+        vec![
+            Prog::I(Ins::PushInt(I64_POOL[rest / ni])),
+            Prog::I(Ins::PushInt(I64_POOL[rest % ni])),
+            Prog::I(Ins::Int(ALL_INT_OPS[op])),
+        ]
+    } else {
+        let fp = f64_pool();
+        let nf = fp.len();
+        let k = idx - int_cells;
+        let (op, rest) = (k / (nf * nf), k % (nf * nf));
+        vec![
+            Prog::I(Ins::PushFloat(F::of(fp[rest / nf]))),
+            Prog::I(Ins::PushFloat(F::of(fp[rest % nf]))),
+            Prog::I(Ins::Float(ALL_FLOAT_OPS[op])),
+        ]
+    };
+    VmSc {
+        init: VmInit {
+            caps: Caps { exec: 8, int: 4, float: 4, bool: 4 },
+            int: vec![7],
+            float: vec![F::of(0.5)],
+            bool: vec![true],
+            program,
+            inputs: Vec::new(),
+            limit: usize::MAX,
+            wrap: 0,
+            giant: 0,
+        },
+        faults: Vec::new(),
+        limits: vec![0, 1, 2, 3, 4, usize::MAX],
+        rebuild_at: None,
+        long: false,
+    }
+}
+
 /// ONE giant block (65 536 .. 300 000 children, stored compactly: `VmInit::giant`): sizes at which a block-wise
 /// or 16-bit shortcut in unfolding a block, in the exec stack or in the run loop would first matter. Children
 /// are literal pushes (the integer pushed is the child's position, so the order of execution shows in the final
